@@ -423,7 +423,7 @@ Proof. exact ss_pipeline. Qed.
 Print Assumptions C18_pipeline_steady.
 
 (* the PDE-based model is affine in the parameter when the parameter enters only through source and initial condition
-   (forward Euler, equal grids, final time, no observation map, at least two nodes): forward(p1) - forward(p2) is the forward
+   (forward Euler, equal grids, final time, no observation map; any number of nodes -- a single observed node included, since the repaired observe() no longer squeezes it to a 0-d value): forward(p1) - forward(p2) is the forward
    value of the difference problem -- what a constant Jacobian of such a model has to reproduce *)
 Theorem C18_forward_pipeline_linear_in_data :
   forall (P Pd I : Type) (solver : nat -> qm -> qv -> sret I) (form : P -> Qc -> qm * qv * qv)
@@ -436,7 +436,6 @@ Theorem C18_forward_pipeline_linear_in_data :
   length (fic P form p1 (nth 0 times 0)) = length (fic P form p2 (nth 0 times 0)) ->
   td_forward P I solver form Q None interp2 G MFwd times [T] prev1 p1 = Ok (A1 o1) ->
   td_forward P I solver form Q None interp2 G MFwd times [T] prev2 p2 = Ok (A1 o2) ->
-  (2 <= length o1)%nat -> length o1 = length o2 ->
   td_forward Pd I solver formd Q None interp2 G MFwd times [T] prevd pd = Ok (A1 (qvsub o1 o2)).
 Proof. exact forward_pipeline_difference. Qed.
 Print Assumptions C18_forward_pipeline_linear_in_data.
@@ -507,8 +506,7 @@ Example C18_example_pipeline_hypotheses :
                fic qv exd_form (qvsub p1 p2) t = qvsub (fic qv ex_form p1 t) (fic qv ex_form p2 t)) /\
   g_eq G = true /\ last_opt times = Some (qc (3 # 4)) /\
   exists o1 o2, td_forward qv Z ex_solver ex_form quirks_fixed None const_interp2 G MFwd times [qc (3 # 4)] None p1 = Ok (A1 o1) /\
-                td_forward qv Z ex_solver ex_form quirks_fixed None const_interp2 G MFwd times [qc (3 # 4)] None p2 = Ok (A1 o2) /\
-                (2 <= length o1)%nat /\ length o1 = length o2.
+                td_forward qv Z ex_solver ex_form quirks_fixed None const_interp2 G MFwd times [qc (3 # 4)] None p2 = Ok (A1 o2).
 Proof. exact ex_pipeline_hypotheses. Qed.
 
 (* non-vacuity: a concrete 2-node problem with time-dependent source on a non-uniform grid; forward Euler levels
